@@ -192,6 +192,13 @@ func (ps *pathState) check(t *smt.Term) smt.Result {
 	r := ps.sol.CheckWith(t)
 	if r == smt.Unknown {
 		ps.unknowns++
+		// a feasibility question the solver cannot answer in time: the path ends as inconclusive
+		// (reported, never success) instead of dragging the time-out through every later query
+		if ps.out == outRunning {
+			ps.out = outInconclusive
+			ps.msg = "solver unknown on a feasibility query (time-out or hard arithmetic)"
+		}
+		panic(abortPanic{})
 	}
 	return r
 }
@@ -544,16 +551,22 @@ func (i *interpreter) violation(fr *frame, kind, label string, haveModel bool) {
 	ps := i.ps
 	v := &Violation{Harness: ps.harness, Kind: kind, Label: label, Pos: i.posOf(fr), Trace: decString(ps.trace), Stack: i.stackOf(fr)}
 	if !haveModel {
+		// the path must be shown feasible before anything on it counts as a counterexample
+		// (an earlier 'unknown' feasibility answer may have kept an infeasible branch alive)
 		ps.queries++
-		if ps.sol.Check() != smt.Sat {
-			haveModel = false
-		} else {
+		switch ps.sol.Check() {
+		case smt.Sat:
 			haveModel = true
+		case smt.Unsat:
+			i.abort(outInfeasible, "path condition unsatisfiable at %s", label)
+		default:
+			ps.unknowns++
+			ps.inconclusive = true
+			ps.note("inconclusive: feasibility of the path to a failing check is unknown: " + label)
+			i.abort(outInconclusive, "solver unknown on the path to a failing check: %s", label)
 		}
 	}
-	if haveModel {
-		v.Model, v.Order, v.Kinds = i.model()
-	}
+	v.Model, v.Order, v.Kinds = i.model()
 	ps.viols = append(ps.viols, v)
 }
 
